@@ -78,19 +78,36 @@ static int is_retained_metadata(uintptr_t a, uintptr_t b) {
   return 0;
 }
 typedef struct snap_s { size_t os_bytes; size_t os_regions; size_t arena_resident; size_t total_resident; size_t arena_rw_unpurged; size_t mapped_total; uintptr_t first_os; size_t first_os_len; } snap_t;
+static void snap_piece(snap_t* s, const vf_region_t* r, uintptr_t a, uintptr_t b) {
+  if (in_arena(a, b)) {
+    s->arena_resident += vf_os_resident_bytes(a, b);
+    if (r->prot == VF_P_RW && !r->purged) s->arena_rw_unpurged += b - a;
+  } else if (!is_retained_metadata(a, b)) {
+    s->os_bytes += b - a; s->os_regions++;
+    if (!s->first_os) { s->first_os = a; s->first_os_len = b - a; }
+  }
+}
 static void take_snapshot(snap_t* s) {
   memset(s, 0, sizeof(*s));
   for (int i = 0; i < vf_os.nregions; i++) {
     const vf_region_t* r = &vf_os.regions[i];
     if (r->adopted) continue;
     s->mapped_total += r->end - r->start;
-    if (in_arena(r->start, r->end)) {
-      s->arena_resident += vf_os_resident_bytes(r->start, r->end);
-      if (r->prot == VF_P_RW && !r->purged) s->arena_rw_unpurged += r->end - r->start;
-    } else if (!is_retained_metadata(r->start, r->end)) {
-      s->os_bytes += r->end - r->start; s->os_regions++;
-      if (!s->first_os) { s->first_os = r->start; s->first_os_len = r->end - r->start; }
+    /* a mapping can straddle the end of an arena (the untrimmed tail of an over-allocation with the same protection):
+       classify the pieces inside and outside the arenas separately */
+    uintptr_t cut[2 * MI_MAX_ARENAS + 2]; int nc = 0;
+    cut[nc++] = r->start;
+    size_t na = mi_atomic_load_relaxed(&mi_arena_count);
+    for (size_t k = 0; k < na; k++) {
+      mi_arena_t* ar = mi_atomic_load_ptr_relaxed(mi_arena_t, &mi_arenas[k]);
+      if (ar == NULL) continue;
+      uintptr_t as = (uintptr_t)ar->start, ae = as + mi_arena_block_size(ar->block_count);
+      if (as > r->start && as < r->end) cut[nc++] = as;
+      if (ae > r->start && ae < r->end) cut[nc++] = ae;
     }
+    cut[nc++] = r->end;
+    for (int x = 1; x < nc; x++) for (int y = x; y > 0 && cut[y] < cut[y - 1]; y--) { uintptr_t t = cut[y]; cut[y] = cut[y - 1]; cut[y - 1] = t; }
+    for (int x = 0; x + 1 < nc; x++) if (cut[x + 1] > cut[x]) snap_piece(s, r, cut[x], cut[x + 1]);
   }
   s->total_resident = vf_os_resident_bytes(0, ~(uintptr_t)0);
 }
